@@ -28,6 +28,7 @@ def run(ctx):
     ctx.do(D.rule_lk1, [LIE])
     ctx.do(D.rule_lk3, [LIE, HOM])
     ctx.do(MI.rule_exp1, [LIE])
+    ctx.do(S.rule_ax1, [LIE, HOM])
     ctx.do(u1, ENTRIES, min_functions=12)
     ctx.r.assume("that products go to products, determinants, preserved "
                  "forms, the Killing form and the inverse up to sign are "
